@@ -28,7 +28,20 @@ impl Prompt {
                 PROMPT_CONTINUE
             };
 
+            // Scripted line source for verification builds (see src/verif.rs)
+            #[cfg(p2sh_verif)]
+            let input_line = match crate::verif::repl_scripted_line() {
+                Some(line) => line,
+                None => Input::<String>::with_theme(&ColorfulTheme::default())
+                    .with_prompt(prompt_str)
+                    .history_with(&mut self.history)
+                    .completion_with(&self.commands)
+                    .with_post_completion_text(prompt_str)
+                    .allow_empty(true)
+                    .interact_text()?,
+            };
             // Display the prompt and get user input
+            #[cfg(not(p2sh_verif))]
             let input_line = Input::<String>::with_theme(&ColorfulTheme::default())
                 .with_prompt(prompt_str)
                 .history_with(&mut self.history)
